@@ -460,3 +460,21 @@ Definition find_preds_g (s : source) (fs : list filter) (id : nat) : list desc :
 
 Definition find_preds_custom_g (s : source) (custom : nat -> list desc) (fs : list filter) (id : nat) : list desc :=
   snd (fold_left (step_g s) fs (false, custom id)).
+
+(* ------------------------------------------------------------------ ExtendedCopy with its error origins
+   Resolve (source) -> findRoots ("FindPredecessors", source) -> copy of the roots -> Tag
+   (destination): the first failing step is the error that is returned (newCopyError op/origin). *)
+Inductive xop := OpResolve | OpFindPredecessors | OpCopy | OpTag.
+Inductive xresult := XOk (node : desc) (tags : list (str * nat)) | XErr (op : xop).
+
+Definition extended_copy_x (resolve : str -> option desc) (roots_ok copy_ok tag_ok : bool)
+           (src_ref dst_ref : str) (tags : list (str * nat)) : xresult :=
+  let dst_ref' := if is_empty dst_ref then src_ref else dst_ref in
+  match resolve src_ref with
+  | None => XErr OpResolve
+  | Some node =>
+    if negb roots_ok then XErr OpFindPredecessors
+    else if negb copy_ok then XErr OpCopy
+    else if negb tag_ok then XErr OpTag
+    else XOk node ((dst_ref', d_id node) :: tags)
+  end.
